@@ -13,6 +13,8 @@ Reading guide.  `route a` = the selected pair if it is listed, else `bestValid`.
 agent is open and started, the payload is not STUN-like, a local candidate listens at the address, and its
 cache holds the source or a current remote candidate of its network type has that address.
 `Inv` = invariant of reachable states (`Inv_init`, `Inv_step`); `run a evs` = the state after a history.
+`.read cap` = `Conn.Read` into a caller buffer of `cap` bytes (`packetio.Buffer.Read`: the head datagram is consumed
+whole, `min n cap` bytes are returned, with `io.ErrShortBuffer` — answer `short:cap` — when `cap < n`).
 -/
 namespace IceProps.C07
 open IceModel.AgentCore IceModel.Sys2 IceProofs.AgentC07
@@ -32,7 +34,10 @@ def selected : List Ev := validated ++ [.advance 200000000,
 from an unknown source, a STUN-like one, `WriteToPair`, reads -/
 def traffic : List Ev := [.write 5 100 false, .inboundData 6 16 32 50 false, .write 7 0 false,
   .writeToPair 8 1 7 false, .inboundData 9 16 48 60 false, .write 10 30 true, .inboundData 11 16 32 70 true,
-  .inboundData 12 16 32 20 false, .read]
+  .inboundData 12 16 32 20 false, .read 8192]
+/-- reads with caller buffers shorter than, equal to and longer than the queued datagram, and of size 0 -/
+def shortReads : List Ev := [.inboundData 6 16 32 50 false, .inboundData 7 16 32 10 false,
+  .inboundData 8 16 32 10 false, .inboundData 9 16 32 0 false, .read 49, .read 10, .read 0, .read 0, .read 5]
 
 /-! ## `bestValid` -/
 
@@ -220,19 +225,25 @@ theorem C07_read_filter_known (init : Agent) (hist : List Ev) (hi : Initial init
   cases accepts a l src <;> simp
 
 /-- The reader never yields STUN traffic and is FIFO.  Along every history: (1) the reader queue after
-any event is the old queue, minus its head if the event is a `Read` on an open agent, plus `[len]` if the
-event is an inbound payload accepted by the filter — so the STUN path (`.inbound`, `handleInbound`) and
-every other event leave it alone and STUN-like payloads never enter; (2) `Read` answers `read:n` for the
-head `n`, `empty` on an empty queue, `err:closed` when closed; (3) what has been read so far, followed by
-what is still queued, is exactly the accepted lengths in arrival order. -/
+any event is the old queue, minus its head if the event is a `Read` on an open agent (whatever the size of
+the caller's buffer: a datagram is consumed whole), plus `[len]` if the event is an inbound payload accepted
+by the filter — so the STUN path (`.inbound`, `handleInbound`) and every other event leave it alone and
+STUN-like payloads never enter; (2) `Read` into a buffer of `cap` bytes, in EVERY agent state: `err:closed`
+when closed, `empty` on an empty queue, both without any change of state; for the head `n`: `read:n` and
+`connBytesRecv + n` when the buffer is large enough (`n ≤ cap`), `short:cap` (`io.ErrShortBuffer`) and
+`connBytesRecv + cap` when it is shorter — the datagram is gone in both cases; (3) the datagrams handed to
+`Read` so far, followed by what is still queued, are exactly the accepted lengths in arrival order. -/
 theorem C07_reader (init : Agent) (hist : List Ev) (hi : Initial init) :
     (∀ pre e, pre ++ [e] <+: hist → (run init (pre ++ [e])).rx = rxAfter (run init pre) e) ∧
-    (∀ a : Agent, (a.closed = true → step a .read = (a, [.res "err:closed"])) ∧
-      (a.closed = false → a.rx = [] → step a .read = (a, [.res "empty"])) ∧
-      (∀ n rest, a.closed = false → a.rx = n :: rest →
-        step a .read = ({ a with rx := rest, connBytesRecv := a.connBytesRecv + n }, [.res s!"read:{n}"]))) ∧
+    (∀ (a : Agent) (cap : Nat), (a.closed = true → step a (.read cap) = (a, [.res "err:closed"])) ∧
+      (a.closed = false → a.rx = [] → step a (.read cap) = (a, [.res "empty"])) ∧
+      (∀ n rest, a.closed = false → a.rx = n :: rest → n ≤ cap →
+        step a (.read cap) = ({ a with rx := rest, connBytesRecv := a.connBytesRecv + n }, [.res s!"read:{n}"])) ∧
+      (∀ n rest, a.closed = false → a.rx = n :: rest → cap < n →
+        step a (.read cap) = ({ a with rx := rest, connBytesRecv := a.connBytesRecv + cap }, [.res s!"short:{cap}"]))) ∧
     readLog init hist ++ (run init hist).rx = acceptLog init hist := by
-  refine ⟨fun pre e _ => ?_, fun a => ⟨step_read_closed a, step_read_empty a, step_read_some a⟩, ?_⟩
+  refine ⟨fun pre e _ => ?_, fun a cap => ⟨step_read_closed a cap, step_read_empty a cap, step_read_full a cap,
+    step_read_short a cap⟩, ?_⟩
   · rw [run_append]
     exact (StepSum_step _ e (Inv_run init pre (Inv_init init hi))).rx
   · have := fifo_run init hist (Inv_init init hi)
@@ -241,6 +252,14 @@ theorem C07_reader (init : Agent) (hist : List Ev) (hi : Initial init) :
 
 example : readLog a0 (selected ++ traffic) = [50] ∧ (run a0 (selected ++ traffic)).rx = [20] ∧
     acceptLog a0 (selected ++ traffic) = [50, 20] := by decide
+-- short buffers: every Read consumes one whole datagram, in order, whatever it returns
+example : readLog a0 (selected ++ shortReads) = [50, 10, 10, 0] ∧ (run a0 (selected ++ shortReads)).rx = [] ∧
+    acceptLog a0 (selected ++ shortReads) = [50, 10, 10, 0] ∧
+    (resOf (step (run a0 (selected ++ shortReads.take 4)) (.read 49)).2 = ["short:49"]) ∧
+    (resOf (step (run a0 (selected ++ shortReads.take 5)) (.read 10)).2 = ["read:10"]) ∧
+    (resOf (step (run a0 (selected ++ shortReads.take 6)) (.read 0)).2 = ["short:0"]) ∧
+    (resOf (step (run a0 (selected ++ shortReads.take 7)) (.read 0)).2 = ["read:0"]) ∧
+    (resOf (step (run a0 (selected ++ shortReads.take 8)) (.read 5)).2 = ["empty"]) := by decide
 example : (step (run a0 (selected ++ traffic)) (.inbound 20 16 32 { cls := 0, tid := 9 })).1.rx = [20] := by decide
 
 /-! ## Counters -/
@@ -256,15 +275,51 @@ theorem C07_counters_step (init : Agent) (hist : List Ev) (hi : Initial init) (e
   StepSum_step _ e (Inv_run init hist (Inv_init init hi))
 
 /-- Along every history from an initial state the connection counters equal the payload bytes accepted by
-`Write` (answered `ok:len`) and the bytes returned by `Read`. -/
+`Write` (answered `ok:len`) and the bytes returned by `Read` — `readTally` adds, for every `Read` on an open
+agent, the head of the queue cut to the caller's buffer (`readBy`), which is the sum of the per-call byte
+counts `retLog` (each the consumed datagram `n` cut to that call's `cap`: `min n cap`). -/
 theorem C07_counters_conn (init : Agent) (hist : List Ev) (hi : Initial init) :
-    (run init hist).connBytesSent = sentTally init hist ∧ (run init hist).connBytesRecv = readTally init hist := by
+    (run init hist).connBytesSent = sentTally init hist ∧ (run init hist).connBytesRecv = readTally init hist ∧
+    readTally init hist = (retLog init hist).sum := by
   have := conn_run init hist (Inv_init init hi)
   rw [hi.2.2.2.2.2.1, hi.2.2.2.2.2.2.1] at this
-  simpa using this
+  exact ⟨by simpa using this.1, by simpa using this.2, readTally_eq_sum init hist⟩
 
 example : sentTally a0 (selected ++ traffic) = 100 ∧ readTally a0 (selected ++ traffic) = 50 ∧
     (run a0 (selected ++ traffic)).connBytesSent = 100 ∧ (run a0 (selected ++ traffic)).connBytesRecv = 50 := by decide
+-- short reads are counted with what they returned: 49 of 50, 10 of 10, 0 of 10, 0 of 0
+example : retLog a0 (selected ++ shortReads) = [49, 10, 0, 0] ∧ readTally a0 (selected ++ shortReads) = 59 ∧
+    (run a0 (selected ++ shortReads)).connBytesRecv = 59 := by decide
+
+/-- Bytes counted = bytes returned, for EVERY caller buffer size and in EVERY agent state (no invariant
+needed): one `Read` into a buffer of `cap` bytes moves `connBytesRecv` by exactly the byte count `k` that
+the call reports — `read:k` (whole datagram) or `short:k` (`io.ErrShortBuffer`: `k = cap` bytes of a longer
+datagram were returned) — and by `0` when it reports `empty` / `err:closed`; `k` never exceeds the buffer. -/
+theorem C07_read_counts_returned (a : Agent) (cap : Nat) :
+    ∃ k, (step a (.read cap)).1.connBytesRecv = a.connBytesRecv + k ∧ k = readBy a (.read cap) ∧ k ≤ cap ∧
+      ((step a (.read cap)).2 = [.res s!"read:{k}"] ∨ (step a (.read cap)).2 = [.res s!"short:{k}"] ∨
+       (k = 0 ∧ (step a (.read cap)).1 = a ∧
+         ((step a (.read cap)).2 = [.res "empty"] ∨ (step a (.read cap)).2 = [.res "err:closed"]))) := by
+  cases hc : a.closed with
+  | true =>
+    refine ⟨0, ?_, by simp [readBy, hc], Nat.zero_le _, Or.inr (Or.inr ⟨rfl, ?_, Or.inr ?_⟩)⟩ <;>
+      (rw [step_read_closed a cap hc]) <;> try rfl
+  | false =>
+    cases hr : a.rx with
+    | nil =>
+      refine ⟨0, ?_, by simp [readBy, hc, hr], Nat.zero_le _, Or.inr (Or.inr ⟨rfl, ?_, Or.inl ?_⟩)⟩ <;>
+        (rw [step_read_empty a cap hc hr]) <;> try rfl
+    | cons n rest =>
+      by_cases hn : n ≤ cap
+      · refine ⟨n, ?_, by simp [readBy, hc, hr, Nat.min_eq_left hn], hn, Or.inl ?_⟩ <;>
+          rw [step_read_full a cap n rest hc hr hn]
+      · have hn' : cap < n := by omega
+        refine ⟨cap, ?_, by simp [readBy, hc, hr, Nat.min_eq_right (Nat.le_of_lt hn')], Nat.le_refl _, Or.inr (Or.inl ?_)⟩ <;>
+          rw [step_read_short a cap n rest hc hr hn']
+
+example : (step (run a0 (selected ++ shortReads.take 4)) (.read 49)).1.connBytesRecv = 49 ∧
+    resOf (step (run a0 (selected ++ shortReads.take 4)) (.read 49)).2 = ["short:49"] ∧
+    (step (run a0 (selected ++ shortReads.take 4)) (.read 49)).1.rx = [10, 10, 0] := by decide
 
 /-- Why the counter theorems start from an initial state: in an UNREACHABLE state whose routed pair names
 candidates that do not exist (the Go code holds pointers, so this cannot arise there) the model's `Write`
